@@ -47,7 +47,9 @@ Clauses and how they are decided
     statement is silent about them).
   m(RQ)fit (synthetic `fit=` object, so no optimiser noise enters; a few real fits in addition):
     per element: calculate_drt on the one-element circuit R0-(R_k X_k) over the same frequencies integrates to R_k;
-    whole circuit: total area = sum R_k; peaks within MRQ_PEAK_STEPS result-grid steps of tau_k = (R_k Y_k)^(1/n_k).
+    whole circuit: total area = sum R_k; peaks at tau_k = (R_k Y_k)^(1/n_k): within MRQ_PEAK_STEPS_SHARP RESULT-grid steps
+    for RC, nearly ideal RQ (n in (0.97, 0.9995], incl. the Gaussian branch |n-1| <= 1e-2) and RQ with n >= 0.9; within
+    MRQ_PEAK_STEPS steps or MRQ_PEAK_DEC_RQ decades for broad humps (n < 0.9).
     Reference for the area is the closed-form integral of the documented (RQ) distribution over the RETURNED tau
     window (equals R_k up to the tail outside the window; the raw deviation from R_k is reported as well).
     scaling: (R*a, Y/a) => gamma*a; (f*b, Y/b^n) => tau/b, gamma unchanged (rel MRQ_SCALE_REL).
@@ -67,7 +69,7 @@ from .. import monitors
 
 ID = "C13"
 RULE = (
-    "ladders R0 + sum_k R_k/(1+(jw tau_k)^n_k), k=1..4, RC (n=1) or RQ (n in [0.7,0.97]), drawn from rng([seed, i]); every "
+    "ladders R0 + sum_k R_k/(1+(jw tau_k)^n_k), k=1..4, RC (n=1) or RQ (n in [0.7,0.97]; m(RQ)fit cells also n in (0.97,0.9995] incl. 0.99, 0.992, 0.995, 0.999, 0.9995), drawn from rng([seed, i]); every "
     "tau_k >= 1.5 decades inside the tau window of the frequency grid and >= 1.5 decades from its neighbours, window 4..12 "
     "whole decades, 5..20 points per decade, resistance scale 10^U(-2,2) with elements within one decade, series resistance "
     "present or absent; spectrum from the harness's own model.  Cells: tr-nnls {real, imaginary} x {fixed lambda in "
@@ -100,8 +102,9 @@ LM_REL = 1e-3              # lm: rel. error of recovered tau_k and R_k
 LM_EXTRA_REL = 1e-6        # lm: weight of poles that do not belong to an element, relative to max R_k
 LM_SCALE_REL = 1e-3        # lm: scaled twin vs base on matched poles
 MRQ_AREA_TOL = 1e-3        # mrq-fit: |area/ref - 1|
-MRQ_PEAK_STEPS = 2.0       # mrq-fit: peak position in result-grid steps
-MRQ_PEAK_DEC_RQ = 0.25     # mrq-fit: RQ elements alternatively within this many decades (neighbour tails tilt the hump)
+MRQ_PEAK_STEPS_SHARP = 1.5  # mrq-fit: RC, near-ideal RQ (Gaussian branch) and RQ with n >= 0.9: peak position in RESULT-grid steps
+MRQ_PEAK_STEPS = 2.0       # mrq-fit: broad RQ (n < 0.9): peak position in result-grid steps ...
+MRQ_PEAK_DEC_RQ = 0.25     # ... or within this many decades (neighbour tails tilt the hump)
 MRQ_SCALE_REL = 1e-9       # mrq-fit: scaled twin vs base (arrays)
 MAX_ITER = 100000
 LM_MAX_DECADES = 9         # lm: window bound of the generator (recovery error grows ~20x per decade: 1e-6 at 9, 2e-2 at 12)
@@ -763,8 +766,14 @@ def run_mrq_one(lad, acc):
             acc.stat(cell + "/peak-checked[near-ideal-rq]")
         acc.obs(cell + f"/peak_dev_steps[{pclass(n)}]", d / rstep)
         acc.obs(cell + f"/peak_dev_decades[{pclass(n)}]", d)
-        # RC: Gaussian centred on tau_k -> the nearest grid point; RQ: symmetric hump on the sloping tails of its neighbours
-        if not (d / rstep <= MRQ_PEAK_STEPS or (n != 1.0 and d <= MRQ_PEAK_DEC_RQ)):
+        # Gaussian branch (RC, near-ideal RQ) and sharp analytic humps (n >= 0.9): the distribution is analytic and centred on
+        # tau_k, so the peak is the nearest RESULT-grid point (0.5 step + a tilt that stayed < 0.12 step in 28800 ladders);
+        # broad humps (n < 0.9) sit on the sloping tails of their neighbours and keep the wider bound
+        if pclass(n) != "broad-rq":
+            good = d / rstep <= MRQ_PEAK_STEPS_SHARP
+        else:
+            good = d / rstep <= MRQ_PEAK_STEPS or d <= MRQ_PEAK_DEC_RQ
+        if not good:
             acc.bad(f"C13/{cell}/peak-position", f"element R={R:.6g} tau={t0:.6g} n={n:.3f}: nearest peak {d:.4f} decades = {d / rstep:.2f} result-grid steps away; "
                     f"peaks at {np.asarray(pt).tolist()}", rep)
     # per element
@@ -885,7 +894,7 @@ def finalize(agg):
     need = [f"tr-nnls/{m}/{lk}/area-checked" for m, lk in NNLS_CELLS] + [f"tr-nnls/{m}/{lk}/peak-checked[rc]" for m, lk in NNLS_CELLS]
     need += [f"tr-nnls/{m}/{lk}/centroid-checked[rq]" for m, lk in NNLS_CELLS]
     need += [f"tr-nnls/{m}/{lk}/scale-Z-compared" for m, lk in NNLS_CELLS] + [f"tr-nnls/{m}/{lk}/scale-f-compared" for m, lk in NNLS_CELLS]
-    need += ["lm/auto/pairs-checked", "lm/explicit/pairs-checked", "mrq-fit/synthetic/total-area-checked",
+    need += ["lm/auto/pairs-checked", "lm/explicit/pairs-checked", "mrq-fit/synthetic/total-area-checked", "mrq-fit/synthetic/peak-checked[near-ideal-rq]", "mrq-fit/synthetic/peak-checked[sharp-rq]",
              "mrq-fit/synthetic/element-area-checked[rc]", "mrq-fit/synthetic/element-area-checked[rq]", "mrq-fit/synthetic/peak-checked"]
     for k in need:
         if st.get(k, 0) < 10:
